@@ -33,6 +33,7 @@ def declare(rep):
     rep.rule("C01.edge-key-width", "edge::hash (the key that orders edge_set_) multiplies node ids in arithmetic that cannot wrap for 32-bit ids: a wrapped Cantor pairing gives two edges one key and add_face registers a face on the wrong edge", floor=1)
     rep.rule("C01.normal-follows-winding", "whenever the node order of a face may change (swap_nodes, check_face_winding_order, replace_node) the cached normal/area of that face is refreshed before control leaves the mesh classes", floor=3)
     rep.rule("C01.worklist-filter", "merge_edge: an edge copy enters the work list only if it mentions none of the nodes replaced and none of the faces deleted by this merge; all insertion sites apply the same filter", floor=1)
+    rep.rule("C01.edit-in-place", "the mesh operations of the refiner change the faces and nodes of the cell itself: a local of type face / node by value that is a copy of a mesh element, is changed (member call or non-const reference argument) and never read afterwards is a change that is lost - e.g. `auto f = c->get_face(id);` followed by check_face_winding_order(ref, f)", floor=3)
     rep.rule("C01.rebase", "rebase regenerates the edge set whenever a queue was non-empty; renumbers faces and nodes; remaps node ids of faces", floor=3)
 
 
@@ -175,6 +176,17 @@ def run(rep, prog, tier):
     pairing(rep, prog)
     add_face_siblings(rep, prog)
     rebase(rep, prog)
+    from .. import lints as _lints
+    for qn_ in ("local_mesh_refiner::split_edge", "local_mesh_refiner::merge_edge", "local_mesh_refiner::swap_edge", "cell::replace_node"):
+        for fn_ in prog.fns(qn_):
+            if not isinstance(fn_.get("body"), dict):
+                continue
+            lost = list(_lints.lost_update_on_local_copy(prog, fn_))
+            for v_, m_ in lost:
+                rep.violation("C01.edit-in-place", prog, fn_, m_, "'%s' is a copy of a mesh element" % v_.get("name"),
+                              "%s declares '%s' (line %s) as a %s by value - a copy of the element it is initialised from - then changes it with '%s' and never reads it again: the change (a corrected winding, a refreshed normal) is applied to the temporary, the triangle stored in the cell keeps its tentative state, and the surface is left inconsistently oriented" % (fn_["qn"], v_.get("name"), v_.get("l"), v_.get("t"), short(m_, 60)))
+            if not lost:
+                rep.ok("C01.edit-in-place", prog, fn_, None, "%s: every face / node that is changed is a reference into the cell" % fn_["qn"])
 
 
 def top_level(fn, pred):
